@@ -20,6 +20,7 @@ mod c10;
 mod c11;
 mod c12;
 mod c13;
+mod c14;
 mod c15;
 
 use util::*;
@@ -87,6 +88,7 @@ fn main() {
         "C11" => c11::run(&p, &mut rep),
         "C12" => c12::run(&p, &mut rep),
         "C13" => c13::run(&p, &mut rep),
+        "C14" => c14::run(&p, &mut rep),
         "C15" => c15::run(&p, &mut rep),
         other => {
             eprintln!("no monitor for {}", other);
